@@ -1,5 +1,6 @@
 // Evaluation of one numerical case against the library, case construction from entropy, replay-file I/O.
 #include "specs.hpp"
+#include "cmirror.hpp"
 #include <masa.h>
 using namespace MASA;
 namespace MASA { void masa_verif_reset(); }
@@ -53,9 +54,12 @@ static bool wanted(const Ev &e, const std::string &prop) {
   return e.kind != 2;
 }
 
+long &mirror_compared() { static long n = 0; return n; }
 template <class Scalar> static std::vector<Outcome> run_t(const Spec &s, const NumCase &c, double K, const std::string &prop) {
   std::vector<Outcome> out; const long double eps = std::numeric_limits<Scalar>::epsilon();
-  { Quiet q; masa_verif_reset(); masa_init<Scalar>("numcase", c.sol); }
+  // the other registry holds a decoy of the same solution type with default parameters: an entry point of this scalar type that
+  // consults the wrong registry then returns a wrong value (judged by the oracle, shrinkable) instead of ending the process
+  { Quiet q; masa_verif_reset(); if (sizeof(Scalar) > 8) masa_init<double>("decoy", c.sol); else masa_init<long double>("decoy", c.sol); masa_init<Scalar>("numcase", c.sol); }
   { Quiet q; for (auto &kv : c.params) masa_set_param<Scalar>(kv.first, (Scalar)kv.second); }
   set_callback(c.cb_kind, c.cb);
   if (!c.vec.empty()) { std::vector<Scalar> v; for (auto x : c.vec) v.push_back((Scalar)x); Quiet q; masa_set_vec<Scalar>("vec_data", v); std::vector<Scalar> back; masa_get_vec<Scalar>("vec_data", back); std::vector<Q> qv; for (auto x : back) qv.push_back(Q((long double)x)); set_current_vec(qv); }
@@ -67,8 +71,12 @@ template <class Scalar> static std::vector<Outcome> run_t(const Spec &s, const N
   long double ptl[4]; double ptd[4]; for (int i = 0; i < 4; i++) { ptl[i] = (long double)pts[i]; ptd[i] = (double)pts[i]; }
   auto call = [&](const Ev &e, const long double *al, const double *ad) -> long double { Quiet q; if (sizeof(Scalar) > 8) return e.ld(al); return (long double)e.d(ad); };
   std::string prefix;
+  // evaluation order: the evaluators of the solution are called in the catalogue order of the spec, rotated by a case-dependent offset
+  // (a pure function of the case, so the replay repeats it): an evaluator that relies on a sibling having been called first at this
+  // point or for these parameters is then reached first in some cases
+  const size_t rot = s.evals.empty() ? 0 : (size_t)(case_hash(c) % s.evals.size());
   auto evaluate_all = [&]() {
-  for (auto &e : s.evals) {
+  for (size_t ei = 0; ei < s.evals.size(); ei++) { const Ev &e = s.evals[(ei + rot) % s.evals.size()];
     if (!wanted(e, prop)) continue; if (!c.only.empty() && c.only != e.label) continue;
     Outcome o; o.label = prefix + e.label; o.finding_cell = (bool)e.asbuilt;
     try {
@@ -91,14 +99,19 @@ template <class Scalar> static std::vector<Outcome> run_t(const Spec &s, const N
     out.push_back(o);
   }
   };
-  evaluate_all();
+  // C-interface mirror (double only): the same evaluators through the extern "C" entry points, bit for bit
+  auto mirror = [&]() { if (sizeof(Scalar) > 8 || !c.only.empty()) return; long n = 0;
+    for (auto &m : c_mirror(ptd, s.nargs, prop == "C07" ? 1 : (prop == "C09" || prop.empty() ? 2 : 0), s.name == "euler_chem_1d" ? keq_d : nullptr, &n)) { Outcome o; o.label = prefix + "C-interface: " + m.cname + (m.idx ? "[" + std::to_string(m.idx) + "]" : ""); o.lib = m.c; o.ref = Q((long double)m.cxx); o.err = 1e300; o.status = 1;
+      o.note = "the C entry point returns a value different from " + m.cxx_id + " of the C++ double API on the same handle at the same point"; out.push_back(o); }
+    mirror_compared() += n; };
+  evaluate_all(); mirror();
   // Second phase on the SAME handle: every parameter is changed through masa_set_param (x 1.0625; admissibility is preserved because all
   // amplitudes and offsets scale alike) and every evaluator is called again at the SAME point. A value cached per object or per process
   // (last point, last time, first Gamma seen) and not refreshed by masa_set_param shows up here, reproducibly from this one case.
   if (c.only.empty() && s.name != "sod_1d") {
     { Quiet q; for (auto &kv : held) masa_set_param<Scalar>(kv.first, (Scalar)(kv.second * 1.0625L)); }
     auto held2 = read_params<Scalar>(names); p.clear(); for (auto &kv : held2) p[kv.first] = Q(kv.second);
-    prefix = "after set_param: "; evaluate_all(); prefix.clear(); }
+    prefix = "after set_param: "; evaluate_all(); mirror(); prefix.clear(); }
   if (s.relations && c.only.empty() && prop != "C07") { try { s.relations(c, p, out, K); } catch (std::exception &ex) { Outcome o; o.label = "relations"; o.status = 1; o.err = 1e300; o.note = ex.what(); out.push_back(o); } }
   return out;
 }
